@@ -97,9 +97,12 @@ Whole == /\ IsEv("whole")
 Budget == /\ IsEv("budget")
           /\ UNCHANGED <<B, content, L, cmode, dagEq, missing, mode, pos, pre, tgt, firstReq>>
 
+\* the environment makes every block available again; readers and nodes keep their state
+Heal == /\ IsEv("heal") /\ missing' = {}
+        /\ UNCHANGED <<B, content, L, cmode, dagEq, mode, pos, pre, tgt, firstReq>>
 Done == l = Len(Trace) + 1 /\ UNCHANGED vars
 
-Next == Reset \/ Dag \/ OpenNode \/ Open \/ Seek \/ Read \/ Whole \/ Budget \/ Done
+Next == Reset \/ Dag \/ OpenNode \/ Open \/ Seek \/ Read \/ Whole \/ Budget \/ Heal \/ Done
 TraceSpec == Init /\ [][Next]_vars
 
 (***************************************************************************)
@@ -107,7 +110,11 @@ TraceSpec == Init /\ [][Next]_vars
 (***************************************************************************)
 Has == l > 1
 Ev == Trace[l - 1]
-DataOK(p, n) == IF cmode = "bytes" THEN Ev.data = Slice(content, p, n) ELSE Ev.eq
+\* total: bytes claimed beyond the end of the content are simply wrong
+DataOK(p, n) == IF cmode = "bytes"
+                THEN (IF n = 0 THEN Ev.data = <<>>
+                      ELSE p >= 0 /\ n > 0 /\ p + n <= Len(content) /\ Len(Ev.data) = n /\ Ev.data = Slice(content, p, n))
+                ELSE Ev.eq
 NoFault == Ev.failed = <<>>
 AllC == {B[i].c : i \in Idx(B)}
 PreNoRoot == SelectSeq(PreorderC(B), LAMBDA c : c # B[1].c)
